@@ -114,7 +114,9 @@ class DualQuaternion:
         """
         a = self.real * self.real.conj()
         b = self.real * self.dual.conj() + self.dual * self.real.conj()
-        return (base.sqrt(a.s), base.sqrt(b.s))
+        # square root of the dual number a.s + eps b.s
+        n = base.sqrt(a.s)
+        return (n, b.s / (2 * n))
 
     def conj(self):
         r"""
